@@ -34,16 +34,23 @@ def sh(cmd, cwd=None, env=None, timeout=900):
 
 
 def scratch_tree(base_variant):
-    """Plain copy of /repo HEAD (no git metadata of /repo involved) with the refactoring applied."""
-    d = tempfile.mkdtemp(prefix='vf_rb_')
-    p1 = subprocess.Popen(['git', '-C', REPO, 'archive', 'HEAD'], stdout=subprocess.PIPE)
-    subprocess.run(['tar', '-x', '-C', d], stdin=p1.stdout, check=True)
+    """Plain copy of /repo (no git metadata involved) with the refactoring applied: /repo HEAD if
+    the refactoring still applies there, else the commit it was written against.  Returns
+    (directory, base label)."""
+    sys.path.insert(0, os.path.dirname(os.path.abspath(__file__)))
+    import seeded as S
+    meta = json.load(open(os.path.join(EQUIV, base_variant, 'meta.json')))
+    tmp = tempfile.mkdtemp(prefix='vf_rb_')
+    repo, label, msg = S.patched_tree(os.path.join(EQUIV, base_variant, 'patch.diff'), meta, tmp)
+    if repo is None:
+        shutil.rmtree(tmp, ignore_errors=True)
+        raise RuntimeError('base refactoring does not apply: ' + msg)
+    # the test suite lives outside plotink/: add it for verification runs
+    p1 = subprocess.Popen(['git', '-C', REPO, 'archive', 'HEAD', 'test', 'setup.py'],
+                          stdout=subprocess.PIPE)
+    subprocess.run(['tar', '-x', '-C', repo], stdin=p1.stdout, check=False)
     p1.wait()
-    rc, out = sh(['patch', '-p1', '-s', '-i', os.path.join(EQUIV, base_variant, 'patch.diff')], cwd=d)
-    if rc:
-        shutil.rmtree(d, ignore_errors=True)
-        raise RuntimeError('base refactoring does not apply: ' + out[-300:])
-    return d
+    return repo, label
 
 
 def run_tests(wt):
@@ -66,7 +73,7 @@ def verify(src_dir, base_variant):
     files = [l[6:].strip() for l in open(patch) if l.startswith('+++ b/')]
     if not files or any(not f.startswith('plotink/') for f in files):
         return {'ok': False, 'why': 'patch touches files outside plotink/: %s' % files}
-    wt = scratch_tree(base_variant)
+    wt, _label = scratch_tree(base_variant)
     try:
         rc0, _ = run_demo(demo, wt)
         rec['demo_base_exit'] = rc0
@@ -82,7 +89,7 @@ def verify(src_dir, base_variant):
         if not rec['ok']:
             rec['why'] = 'tests_ok=%s demo_base=%s demo_changed=%s' % (ok_t, rc0, rc1)
     finally:
-        shutil.rmtree(wt, ignore_errors=True)
+        shutil.rmtree(os.path.dirname(wt), ignore_errors=True)
     return rec
 
 
@@ -123,20 +130,30 @@ def eval_one(name, tier='quick'):
     meta = json.load(open(os.path.join(d, 'meta.json')))
     pid = meta['property']
     base_variant = meta['base'].split('/', 1)[1]
-    wt = scratch_tree(base_variant)
+    wt, label = scratch_tree(base_variant)
     ev = tempfile.mkdtemp(prefix='vf_rbev_')
+    import seeded as S
     try:
         rc, out = sh(['patch', '-p1', '-s', '-i', os.path.join(d, 'patch.diff')], cwd=wt)
         if rc:
             return name, pid, 'PATCH-FAILED', out[-200:]
-        rc, out = sh([os.path.join(VERIF, 'check'), pid, tier, '--repo', wt, '--out', ev], cwd=VERIF)
-        rules = sorted({l.split('[')[1].split(']')[0] for l in out.splitlines()
-                        if '[' in l and ']' in l and ': [' in l})
+        try:
+            rc, out = sh([os.path.join(VERIF, 'check'), pid, tier, '--repo', wt, '--out', ev],
+                         cwd=VERIF, timeout=400)
+        except subprocess.TimeoutExpired:
+            return name, pid, 'TIMEOUT', 'check did not finish within 400 s'
+        inherited = S.inherited_reports(label)
+        rules = sorted({r for r, k in S.reported(out) if (r, k) not in inherited})
+        if rc == 1 and not rules:
+            rc = 0
         verdict = {0: 'MISSED', 1: 'CAUGHT', 2: 'CANNOT-CONCLUDE'}.get(rc, 'rc=%d' % rc)
         lines = [l for l in out.strip().splitlines() if 'conda' not in l]
-        return name, pid, verdict, ', '.join(rules) if rules else (lines[-1][:200] if lines else '')
+        note = ', '.join(rules) if rules else (lines[-1][:200] if lines else '')
+        if label != 'HEAD':
+            note += ' (on base %s)' % label
+        return name, pid, verdict, note
     finally:
-        shutil.rmtree(wt, ignore_errors=True)
+        shutil.rmtree(os.path.dirname(wt), ignore_errors=True)
         shutil.rmtree(ev, ignore_errors=True)
 
 
